@@ -76,8 +76,11 @@ Deliverables, all in {wt}/SEED/ :
                `PYTHONPATH=<tree>/hugr-py/src /venv/bin/python -B demo.py` from another directory.  It should check the
                property's clause directly (what a user relying on the property would observe).
   notes.md     5-15 lines: which clause breaks, what exactly is needed to manifest it, why the existing tests do not see it.
-Before you finish: verify demo.py exits 0 with your change stashed (`git -C {wt} stash` ... `git -C {wt} stash pop`) and 1
-with it applied, and that the test suite still shows 180 passed with it applied.  Leave the change applied in the worktree.
+Before you finish: verify demo.py exits 0 WITHOUT your change and 1 with it applied, and that the test suite still shows
+180 passed with it applied.  Do NOT use `git stash` (the stash is shared by all worktrees of the repository and other
+people work in sibling worktrees): take your change out and put it back with
+`git -C {wt} diff -- hugr-py/src > /tmp/{name}.p && git -C {wt} apply -R /tmp/{name}.p` ... `git -C {wt} apply /tmp/{name}.p`.
+Leave the change applied in the worktree.
 Reply with a 3-line summary (mechanism, what it needs to manifest, test-suite result).
 """
     (base / f"{name}.prompt.txt").write_text(text)
